@@ -445,19 +445,4 @@ Proof.
     destruct (strms_search (sc_strms c') id); [destruct X|]. split; [reflexivity|]. split; [left; apply Rf | apply sents_on_quiet, Q].
 Qed.
 
-(* flushStreams has nothing to do when no response is waiting for window *)
-Definition no_pending c : bool :=
-  forallb (fun st => negb (st_responded st && negb (st_handlerRunning st) && has_more_to_send st)) (sc_strms c).
-
-Lemma flush_loop_noop c : no_pending c = true -> forall ids done, flush_loop c ids done = (c, done).
-Proof.
-  intros NP ids. induction ids as [|id t IH]; intro done; cbn [flush_loop]; [reflexivity|].
-  destruct (strms_search (sc_strms c) id) as [st|] eqn:T; [|apply IH].
-  unfold no_pending in NP. rewrite forallb_forall in NP. specialize (NP st (search_In _ _ _ T)).
-  apply negb_true_iff in NP. rewrite NP. apply IH.
-Qed.
-
-Lemma flush_streams_noop c : no_pending c = true -> flush_streams c = c.
-Proof. intro NP. unfold flush_streams. rewrite (flush_loop_noop c NP). reflexivity. Qed.
-
 End Batch2.
